@@ -65,10 +65,28 @@ def strip_comments(src):
     return "".join(out)
 
 
-def forbidden_tokens():
-    """Admitted/admit/Axiom/... anywhere; Variable/Hypothesis only inside a Section."""
+def dep_closure(start_rel):
+    """The .v files (relative to coq/) that start_rel transitively Requires inside this development."""
+    seen, todo = set(), [start_rel]
+    while todo:
+        f = todo.pop()
+        if f in seen or not os.path.exists(os.path.join(COQ, f)):
+            continue
+        seen.add(f)
+        src = strip_comments(open(os.path.join(COQ, f)).read())
+        for stmt in re.findall(r'Require\s+(?:Import|Export)?[^.]*(?:\.[A-Za-z_][^.]*)*\.\s', src + " "):
+            for d, m in re.findall(r'\b(Common|Gen|Model|Proofs|Props)\.(\w+)', stmt):
+                todo.append("%s/%s.v" % (d, m))
+    return sorted(seen)
+
+
+def forbidden_tokens(start_rel=None):
+    """Admitted/admit/Axiom/... anywhere; Variable/Hypothesis only inside a Section.
+    With start_rel: only the files the property's Props file depends on (every file at --setup)."""
     bad = []
-    for p in sorted(glob.glob(os.path.join(COQ, "**", "*.v"), recursive=True)):
+    files = (sorted(glob.glob(os.path.join(COQ, "**", "*.v"), recursive=True)) if start_rel is None
+             else [os.path.join(COQ, f) for f in dep_closure(start_rel)])
+    for p in files:
         src = strip_comments(open(p).read())
         stack = []
         for ln, line in enumerate(src.split("\n"), 1):
@@ -101,12 +119,25 @@ def regen_coqproject():
         sh("coq_makefile -f _CoqProject -o Makefile", cwd=COQ, check=True)
 
 
+def run_constgen(cfg):
+    """Translator: regenerate coq/Gen/Consts_Cnn.v from /repo's Go constants (props/Cnn.json "consts")."""
+    c = cfg.get("consts")
+    if not c:
+        return None
+    os.makedirs(os.path.join(WORK, "bin"), exist_ok=True)
+    exe = os.path.join(WORK, "bin", "constgen")
+    with Lock("constgen"):
+        sh(["go", "build", "-o", exe, "."], cwd=os.path.join(ROOT, "tools", "constgen"), env=GOENV, check=True)
+    rc, out = sh([exe, "-repo", REPO, "-out", os.path.join(COQ, c["out"])] + c["specs"])
+    if rc != 0:
+        return "translator constgen failed: " + out.strip()[-500:]
+    return None
+
+
 def run_generators(names):
     for g in names:
         if g == "rngcooked":
             sh([sys.executable, os.path.join(ROOT, "tools", "gen_rngcooked.py")], env=GOENV, check=True)
-        elif g == "consts":
-            sh([sys.executable, os.path.join(ROOT, "tools", "constgen.py")], env=GOENV, check=True)
         else:
             raise RuntimeError("unknown generator " + g)
 
@@ -281,13 +312,17 @@ def check(pid, tier, seed):
     violations, known_lines, notes = [], [], []
 
     run_generators(cfg.get("gen", []))
-    bad = forbidden_tokens()
+    gen_err = run_constgen(cfg)
+    bad = forbidden_tokens(cfg["props_file"])
     ok, blog, theorems, printed, answers = build_props(cfg, int(cfg.get("make_timeout_s", 1500)))
     obligations = len(theorems)
     discharged = obligations if (ok and not bad) else 0
     axioms = sorted({a for ans in answers for a in ans})
     proof_broken = None
-    if bad:
+    if gen_err:
+        proof_broken = gen_err
+        discharged = 0
+    elif bad:
         proof_broken = "forbidden tokens in the development: " + "; ".join(bad[:5])
     elif not ok:
         m = re.search(r'File "([^"]+)", line (\d+)', blog)
@@ -466,7 +501,19 @@ def replay(pid, path):
 
 def setup():
     t0 = time.time()
-    run_generators(["rngcooked"] + (["consts"] if os.path.exists(os.path.join(ROOT, "tools", "constgen.py")) else []))
+    run_generators(["rngcooked"])
+    for f in sorted(glob.glob(os.path.join(ROOT, "props", "C*.json"))):
+        cfg = json.load(open(f))
+        for g in cfg.get("gen", []):
+            run_generators([g])
+        err = run_constgen(cfg)
+        if err:
+            print(err)
+            return 1
+    bad = forbidden_tokens()
+    if bad:
+        print("forbidden tokens:", bad)
+        return 1
     with Lock("coq"):
         regen_coqproject()
         rc, out = sh("timeout 3000 make -j16", cwd=COQ)
